@@ -53,6 +53,7 @@ def consistency_failures(case, rep):
 
 def run(chk):
     pipefam.standard_obligations(chk, "C07.v")
+    pipefam.merge_unit(chk, chk.rng("merge_unit"))
     n = 100 if chk.tier == "quick" else 2500
     r = chk.rng("cases")
     cases = pipefam.load_corpus("C07") + [gen.gen_pair(r, max_chrom=3, max_genes=5, max_tes=35) for _ in range(n)]
